@@ -118,7 +118,9 @@ type machine struct {
 
 var allRIDs = []string{"svc.r.1", "svc.r.2", "svc.s.1", "svc.s.2", "svc.t.a.1", "svc.t.a.2", "svc.t.b.1", "svc.p.1", "svc.m.1", "svc.m.2", "svc.nosuch.1",
 	"svc.m.w.a.x", "svc.m.w.a.y.z", "svc.m.fixed", "svc.m.q.1", "svc.u.book.1", "svc.u.toy.1", "svc.m.a.b", "svc.m.c.b", "svc.r.1.deep",
-	"svc.m.n.a.1", "svc.m.n.a.2", "svc.m.n.b.1", "svc.m.n.k.1.a", "svc.m.n.k.2.a", "svc.x.a.1", "svc.x.b.1",
+	"svc.m.n.a.1", "svc.m.n.a.2", "svc.m.n.b.1", "svc.m.n.k.1.a", "svc.m.n.k.2.a",
+	// placeholder values outside the usual alphabet: still resources of their patterns
+	"svc.r.åsa", "svc.r.$q", "svc.t.a.*", "svc.x.a.1", "svc.x.b.1",
 	// no handler: the service name glued to further characters
 	"svcx.r.1", "svc_r.1", "svc"}
 
